@@ -1,3 +1,2 @@
--- This module serves as the root of the `A10Verif` library.
--- Import modules here that should be built as part of the library.
-import A10Verif.Basic
+-- Root of the `A10Verif` library: models, lemmas and property theorems.
+import A10Verif.Model.Basic
